@@ -756,6 +756,145 @@ func histories(r *vkit.R) {
 	})
 }
 
+var bigPool = func() []string {
+	var out []string
+	for i := 1; i <= 12; i++ {
+		out = append(out, fmt.Sprintf("https://10.14.1.%d:6443", i))
+	}
+	return out
+}()
+
+// foreignChanges: while a subset policy with 2..11 ready endpoints (clusters of up to 12 servers) is picking, things that do
+// NOT belong to it change: health outcomes and disabled flags of servers outside its subset, the subset order of another
+// policy, a further policy appended to / removed from the list. The server list itself stays as it is. The policy's ready
+// set is stable throughout, so its picks are still "N consecutive picks while the ready set is stable".
+func foreignChanges(r *vkit.R) {
+	n := tierN(r, 50, 500)
+	r.Parallel(n, 6, func(ci int, g *vkit.Rand) {
+		st := &state{Disabled: map[string]bool{}, Healthy: map[string]bool{}}
+		ns := g.Range(3, 12)
+		perm := g.Perm(len(bigPool))
+		for i := 0; i < ns; i++ {
+			st.Servers = append(st.Servers, bigPool[perm[i]])
+			st.Healthy[bigPool[perm[i]]] = true
+		}
+		nSub := g.Range(2, ns-1)
+		sub := append([]string(nil), st.Servers[:nSub]...)
+		outsiders := append([]string(nil), st.Servers[nSub:]...)
+		g.Shuffle(sub)
+		if nSub > 2 && g.Chance(0.3) {
+			st.Healthy[sub[g.Intn(nSub)]] = false
+		}
+		if nSub > 3 && g.Chance(0.2) {
+			st.Disabled[sub[g.Intn(nSub)]] = true
+		}
+		st.Policies = []polSpec{{Subset: sub, Res: "r0"}, {Subset: append([]string(nil), outsiders...), Res: "r1"}}
+		b, err := newBed(st)
+		if err != nil {
+			r.Inconclusive("CreateClusterInfo failed: " + err.Error())
+			return
+		}
+		defer b.close()
+		snap := st.clone()
+		ready := snap.readyList(0)
+		k := len(ready)
+		acc := map[string]int{}
+		accN := 0
+		for rd := 0; rd < g.Range(1, 3); rd++ {
+			stop := make(chan struct{})
+			var applied int64
+			var cerr atomic.Value
+			var cwg sync.WaitGroup
+			cg := g.Fork("changer")
+			cwg.Add(1)
+			go func() {
+				defer cwg.Done()
+				for i := 0; ; i++ {
+					select {
+					case <-stop:
+						return
+					default:
+					}
+					o := outsiders[cg.Intn(len(outsiders))]
+					resync := true
+					b.mu.Lock()
+					switch cg.Intn(4) {
+					case 0:
+						resync = false
+					case 1:
+						if st.Disabled[o] {
+							delete(st.Disabled, o)
+						} else {
+							st.Disabled[o] = true
+						}
+					case 2:
+						cg.Shuffle(st.Policies[1].Subset)
+					default:
+						if len(st.Policies) > 2 {
+							st.Policies = st.Policies[:2]
+						} else {
+							st.Policies = append(st.Policies, polSpec{Subset: []string{o}, Res: "zz"})
+						}
+					}
+					b.mu.Unlock()
+					if resync {
+						if err := b.noopResync(false); err != nil {
+							cerr.Store(err.Error())
+						}
+					} else {
+						b.mu.Lock()
+						h := !st.Healthy[o]
+						b.mu.Unlock()
+						b.setHealthy(o, h)
+					}
+					atomic.AddInt64(&applied, 1)
+					time.Sleep(time.Duration(10+cg.Intn(120)) * time.Microsecond)
+				}
+			}()
+			N := pickN(g, k, tierN(r, 1200, 3000))
+			P := g.PickInt(pickerChoices)
+			lg := runBatch(b, "r0", N, P, g.Bool(), nil, nil, resyncOpt{})
+			close(stop)
+			cwg.Wait()
+			if e, _ := cerr.Load().(string); e != "" {
+				r.Inconclusive("ClusterInfo.Sync failed for a change outside the policy: " + e)
+				return
+			}
+			lg.tag = "+foreign-changes"
+			r.Eval(1)
+			r.Count("picks", N)
+			r.Count("batches_with_foreign_changes", 1)
+			r.Count("foreign_changes_applied_during_batches", int(atomic.LoadInt64(&applied)))
+			if k >= 7 {
+				r.Count("batches_with_7_to_11_ready_endpoints", 1)
+			}
+			r.Distinct(vkit.Hash64("foreign", strings.Join(ready, ","), fmt.Sprint(ns, N, P)))
+			before := r.Violations()
+			judge(r, snap, 0, N, P, true, lg, fmt.Sprintf("foreign-changes case=%d round=%d", ci, rd))
+			if r.Violations() != before || k == 0 {
+				return
+			}
+			for e, c := range lg.counts {
+				acc[e] += c
+			}
+			accN += N
+			if rd > 0 {
+				lo, hi := accN/k, (accN+k-1)/k
+				for _, e := range ready {
+					if acc[e] < lo || acc[e] > hi {
+						r.Violation("C14/subset/union-window/"+mode(P)+"+foreign-changes",
+							fmt.Sprintf("subset policy, %d ready endpoints, changes outside the policy in between: over %d consecutive picks made in %d back-to-back batches %s was chosen %d times, allowed %d..%d", k, accN, rd+1, e, acc[e], lo, hi),
+							batchWitness{State: snap, Policy: 0, Ready: ready, N: accN, Pickers: P, Counts: acc, Case: fmt.Sprintf("foreign-changes case=%d", ci)})
+						return
+					}
+				}
+			}
+		}
+	})
+	r.Require(r.Counter("batches_with_foreign_changes") >= int64(n) && r.Counter("foreign_changes_applied_during_batches") >= int64(n*3), "too few batches with changes outside the policy")
+	r.Require(r.Counter("batches_with_7_to_11_ready_endpoints") >= int64(n/10), "too few batches with 7..11 ready endpoints")
+}
+
 // addDuringPicks: pickers are running (fresh picker per pick, as every request does) WHILE a sync adds a server to a
 // policy without subset. The picks made during the sync are not judged (the ready set is changing). Afterwards the new
 // endpoint is ready and a stable window opens: every ready endpoint, including the new one, must get its share
@@ -846,6 +985,11 @@ func addDuringPicks(r *vkit.R) {
 	r.Require(r.Counter("server_additions_overlapped_by_picks") >= int64(n*8/10), "too few server additions were overlapped by concurrent picks")
 }
 
+var (
+	linStop, linIllegal int32
+	linSlowest          int64
+)
+
 // linModel: fetch-and-increment modulo k; the state is the index of the last pick (-1 = not known yet).
 func linModel(k int) porcupine.Model {
 	return porcupine.Model{
@@ -931,8 +1075,23 @@ func linHistories(r *vkit.R) {
 			}
 		}
 		r.Count("lin_ops_overlapping_another", overlap)
-		switch vkit.CheckLin(linModel(k), ops, 20*time.Second) {
+		// The search is fast on linearizable histories (all of them on correct code) but may need its whole time budget on a
+		// history that is not. Once the run has its verdict there is no point in waiting for more of them: after 3
+		// non-linearizable histories or one time-out the remaining histories are only judged by their counts.
+		if atomic.LoadInt32(&linStop) != 0 {
+			r.Count("lin_histories_not_searched_after_the_run_had_its_verdict", 1)
+			return
+		}
+		t0 := bed.Now()
+		res := vkit.CheckLin(linModel(k), ops, 10*time.Second)
+		if d := bed.Now() - t0; d > atomic.LoadInt64(&linSlowest) {
+			atomic.StoreInt64(&linSlowest, d)
+		}
+		switch res {
 		case vkit.LinIllegal:
+			if atomic.AddInt32(&linIllegal, 1) >= 3 {
+				atomic.StoreInt32(&linStop, 1)
+			}
 			type opw struct {
 				Client int   `json:"client"`
 				Call   int64 `json:"call_ns"`
@@ -947,7 +1106,8 @@ func linHistories(r *vkit.R) {
 				fmt.Sprintf("history of %d concurrent picks by %d pickers over %d ready endpoints is not linearizable w.r.t. fetch-and-increment mod k (a cursor value was duplicated or skipped); counts %v", len(ops), P, k, lg.counts),
 				map[string]interface{}{"state": st, "ready": ready, "history": hw})
 		case vkit.LinUnknown:
-			r.Inconclusive("porcupine timed out on a <=60-operation history")
+			atomic.StoreInt32(&linStop, 1)
+			r.Inconclusive("porcupine timed out (10 s) on a <=60-operation history")
 		}
 	})
 }
@@ -1075,7 +1235,7 @@ func TestCheck(t *testing.T) {
 			"every k-window of a single-picker sequence a permutation; no subset -> |count-N/k|<=k!; only ready endpoints of the policy returned; (2) <=60-pick concurrent " +
 			"histories checked with porcupine against fetch-and-increment mod k; (3) large-N batches on policies without subset, k<=4, fresh picker per pick. " +
 			"In 45% of the batches no-op re-syncs (same object, or an object whose annotation / logging mode / flow-control schema changed while servers, disabled flags and policies did not) are delivered through ClusterInfo.Sync between the picks of a single picker or concurrently with the pickers, and in 30% between back-to-back batches: the ready set is unchanged, so the same oracle applies. " +
-			"(4) picker goroutines run WHILE a sync adds a server to a policy without subset; then the new endpoint is ready and a stable batch must give every ready endpoint incl. the new one its share. Non-trivial = k>=2 ready endpoints; distinct = hash(kind, ready list, servers, N, pickers). Every-statement schedule points in clusterinfo.go perturb the interleaving.")
+			"(5) clusters of up to 12 servers: a subset policy with 2..11 ready endpoints picks while health / disabled flags of servers outside its subset, another policy's subset order and the policy list change. (4) picker goroutines run WHILE a sync adds a server to a policy without subset; then the new endpoint is ready and a stable batch must give every ready endpoint incl. the new one its share. Non-trivial = k>=2 ready endpoints; distinct = hash(kind, ready list, servers, N, pickers). Every-statement schedule points in clusterinfo.go perturb the interleaving.")
 		r.Assume("a policy's picks are judged only while no other policy with the same ready set is picking (the implementation keeps one cursor per ready list, as the property's anchors describe)")
 		r.Assume("windows of consecutive picks are not extended across a spec or readiness change of the cluster (a server-list change restarts the cursors)")
 
@@ -1087,6 +1247,7 @@ func TestCheck(t *testing.T) {
 		histories(r)
 		linHistories(r)
 		addDuringPicks(r)
+		foreignChanges(r)
 		vkit.Sched.Enable(seed+1, 0.01, 0.002, 0.00005)
 		largeNoSubset(r)
 		vkit.Sched.Disable()
@@ -1098,7 +1259,8 @@ func TestCheck(t *testing.T) {
 
 		r.Require(r.Counter("batches_subset") >= int64(tierN(r, 300, 1800)), "too few subset batches evaluated")
 		r.Require(r.Counter("batches_concurrent") >= int64(tierN(r, 150, 900)), "too few concurrent batches evaluated")
-		r.Require(r.Counter("lin_histories") >= int64(tierN(r, 120, 2400)), "too few linearizability histories")
+		r.Set("lin_slowest_search_ms", float64(atomic.LoadInt64(&linSlowest))/1e6)
+		r.Require(r.Counter("lin_histories")-r.Counter("lin_histories_not_searched_after_the_run_had_its_verdict") >= int64(tierN(r, 120, 2400)) || atomic.LoadInt32(&linStop) != 0, "too few linearizability histories")
 		r.Require(r.Counter("batches_with_noop_resyncs_and_a_disabled_server_listed") >= int64(tierN(r, 80, 500)), "too few batches with no-op re-syncs on a cluster that lists a disabled server")
 		r.Require(r.Counter("lin_ops_overlapping_another") > 0, "no overlapping picks were observed in the linearizability histories")
 		r.Require(r.Counter("large_nosubset_batches") >= int64(tierN(r, 10, 60)), "too few large batches on policies without subset")
